@@ -142,13 +142,13 @@ func Demerits(items []Item, breaks []int, width float64, p Params) float64 {
 
 // Result of the exhaustive search.
 type Result struct {
-	LegalBreaks  int
-	Breakings    int     // complete breakings enumerated
-	Feasible     bool    // some breaking has all ratios within [-1, Tolerance]
-	MinDemerits  float64 // minimum total demerits among those
-	Shrinkable   bool    // some breaking has all ratios >= -1
-	MinMaxRatio  float64 // tau*: minimum over those of their maximum ratio
-	MinDemRelax  float64 // minimum demerits among breakings with all ratios in [-1, tau*]
+	LegalBreaks int
+	Breakings   int     // complete breakings enumerated
+	Feasible    bool    // some breaking has all ratios within [-1, Tolerance]
+	MinDemerits float64 // minimum total demerits among those
+	Shrinkable  bool    // some breaking has all ratios >= -1
+	MinMaxRatio float64 // tau*: minimum over those of their maximum ratio
+	MinDemRelax float64 // minimum demerits among breakings with all ratios in [-1, tau*]
 }
 
 // Search enumerates all breakings: every subset of the optional legal breakpoints together with all
